@@ -47,15 +47,7 @@ spec fn no_dual(signals: Seq<Signal>) -> bool {
     forall|i: int, j: int| 0 <= i < signals.len() && 0 <= j < signals.len() && sig_is_input(signals[i]) && signals[j].typ is Bidirectional
         ==> (#[trigger] signals[i]).name@ != (#[trigger] signals[j]).name@ + "_out"@
 }
-// N7 [A-std]: `xs.iter().any(f)` on a slice: some element is accepted by f
-#[verifier::external_body]
-fn verif_any_slice<T, F: FnMut(&T) -> bool>(xs: &[T], f: F) -> (r: bool)
-    requires forall|i: int| 0 <= i < xs@.len() ==> call_requires(f, (&xs@[i],)),
-    ensures r <==> exists|i: int| 0 <= i < xs@.len() && call_ensures(f, (&#[trigger] xs@[i],), true),
-        !r ==> forall|i: int| 0 <= i < xs@.len() ==> call_ensures(f, (&#[trigger] xs@[i],), false),
-{
-    xs.iter().any(f)
-}
+//@include spec/any_slice.spec.rs
 spec fn name_in(signals: Seq<Signal>, name: Seq<char>) -> bool {
     exists|i: int| 0 <= i < signals.len() && (#[trigger] signals[i]).name@ == name
 }
